@@ -11,6 +11,7 @@ structure RuleText where
   cbPart : List String
   m : Nat            -- MaxEjectionPercent = m / 2^E
   E : Nat
+  loaded : Bool := true   -- false after `clearres` (no rule in force; the recycler object and its map survive)
 
 structure St where
   now : Nat := 1900000000000   -- every case starts here (the Go harness resets its virtual clock to it)
@@ -65,22 +66,29 @@ def showCheck (n : Nat) (out : CheckOut) (post : Nodes) : String :=
   let f := if out.filters.length < rej.length then "*" else showList (sortS out.filters)
   s!"n={n} nf={out.filters.length} rej={showList rej} filter={f} halfopen={showList (sortS out.halfs)} post={showStates post}"
 
-def modelStep (s : St) (ts : List String) : St × Option String :=
-  match ts with
-  | ["load", name, strat, retry, minReq, interval, bc, maxRt, thr, probe, maxEj, active] =>
+/-- `load` (bulk `outlier.LoadRules` of all rules of the case) and `loadres` (`outlier.LoadRuleOfResource`): both end in
+    `BuildResourceCircuitBreaker(res, [rule], [old breaker])` per node.  An invalid rule on the per-resource path returns an
+    error and leaves the previous rule in force (C13 finding `outlier-invalid-keeps-old`); on the bulk path it is not generated. -/
+def loadStep (s : St) (perRes : Bool) (args : List String) : St × Option String :=
+  match args with
+  | [name, strat, retry, minReq, interval, bc, maxRt, thr, probe, maxEj, active] =>
     match strat.toNat?, retry.toNat?, minReq.toNat?, interval.toNat?, bc.toNat?, maxRt.toNat?, parseFbits? thr,
           probe.toNat?, parseF? maxEj, active.toNat? with
     | some strat, some retry, some minReq, some interval, some bc, some maxRt, some thrF, some probe, some (m, E), some act =>
       let cbPart := [strat.repr, retry.repr, minReq.repr, interval.repr, bc.repr, maxRt.repr, thr, probe.repr]
       -- IsValidRule of both packages
-      if strat > 2 ∨ interval = 0 ∨ retry = 0 ∨ thrF < 0.0 ∨ thrF.isNaN ∨ (strat ≤ 1 ∧ thrF > 1.0) ∨ m > 2 ^ E then (s, some "bad-op") else
+      if strat > 2 then (s, some "bad-op") else
+      if interval = 0 ∨ retry = 0 ∨ thrF < 0.0 ∨ thrF.isNaN ∨ (strat ≤ 1 ∧ thrF > 1.0) ∨ m > 2 ^ E then
+        (s, some (if perRes then "err" else "bad-op")) else
       let rule : Rule := { cb := mkCbRule strat retry minReq interval bc maxRt probe thrF, active := act ≠ 0,
                            cap := fun n => capF64 n m E }
+      let nt : RuleText := { cbPart := cbPart, m := m, E := E }
       match getRes s name with
-      | none => (setRes s name { rule := rule } { cbPart := cbPart, m := m, E := E }, some "ok")
+      | none => (setRes s name { rule := rule } nt, some "ok")
       | some (r, t) =>
+        -- after a clear there are no node breakers to carry over
+        if !t.loaded ∨ r.nodes.isEmpty then (setRes s name { r with rule := rule } nt, some "ok") else
         -- an equal breaker rule keeps every node breaker (`BuildResourceCircuitBreaker` reuses equal ones)
-        let nt : RuleText := { cbPart := cbPart, m := m, E := E }
         if t.cbPart = cbPart then (setRes s name { r with rule := rule } nt, some "ok") else
         -- `Rule.isEqualsTo` (base fields; MaxAllowedRtMs only for the slow-request strategy; thresholds by `Float64Equals`)
         let nth (l : List String) (i : Nat) : String := l.getD i ""
@@ -95,12 +103,22 @@ def modelStep (s : St) (ts : List String) : St × Option String :=
           -- `isStatReusable`: strategy, interval and (raw) bucket count unchanged
           (setRes s name (r.rebuild rule s.now (same 0 && same 3 && same 4)) nt, some "ok")
     | _, _, _, _, _, _, _, _, _, _ => (s, some "bad-op")
+  | _ => (s, some "bad-op")
+
+def modelStep (s : St) (ts : List String) : St × Option String :=
+  match ts with
+  | "load" :: args => loadStep s false args
+  | "loadres" :: args => loadStep s true args
+  | ["clearres", name] => match getRes s name with
+    -- `LoadRuleOfResource(res, nil)`: rule and node breakers of the resource are dropped
+    | some (r, t) => (setRes s name r.clear { t with loaded := false }, some "ok")
+    | none => (s, some "ok")
   | ["clock", t] => match t.toNat? with
     | some t => if s.now ≤ t then ({ s with now := t }, none) else (s, some "bad-op")
     | none => (s, some "bad-op")
   | ["call", name, addr, oc, rt] => match getRes s name, rt.toNat? with
     | some (r, t), some rt =>
-      if addr = "" ∨ (oc ≠ "ok" ∧ oc ≠ "err") then (s, some "bad-op") else
+      if addr = "" ∨ (oc ≠ "ok" ∧ oc ≠ "err") ∨ !t.loaded then (s, some "bad-op") else
       let (r1, out) := r.check s.now (sortNodes r.nodes)
       let now := s.now + rt
       let r2 := r1.completed now addr rt (oc == "err")
@@ -118,6 +136,7 @@ def modelStep (s : St) (ts : List String) : St × Option String :=
     | none => (s, some "bad-op")
   | ["retry", name, addr, rt] => match getRes s name, rt.toNat? with
     | some (r, t), some rt =>
+      if !t.loaded then (s, some "bad-op") else
       let r1 := r.retryOk s.now addr rt
       (setRes s name r1 t, some s!"nodes={showStates r1.nodes}")
     | _, _ => (s, some "bad-op")
@@ -146,6 +165,9 @@ structure ORes where
   E : Nat
   active : Bool
   status : Status := []
+  loaded : Bool := true
+  /-- node addresses last observed for the resource (`end=` / `nodes=`), emptied by `clearres` -/
+  known : List String := []
 
 structure OSt where
   res : List (String × ORes) := []
@@ -166,6 +188,12 @@ def parseList (s : String) : Option (List String) :=
   else none
 
 def subset (xs ys : List String) : Bool := xs.all fun x => ys.contains x
+
+/-- addresses of an observed `key=[a:C,b:O,…]` list (the previous knowledge when the field is missing) -/
+def addrsOf (res key : String) (dflt : List String) : List String :=
+  match (field res key).bind parseList with
+  | some l => l.filterMap fun x => (x.splitOn ":").head?
+  | none => dflt
 
 /-- judge one observed request; returns the verdict and the observed rejecting set -/
 def judgeCheck (r : ORes) (res : String) : String × List String :=
@@ -198,37 +226,50 @@ def judgeCheck (r : ORes) (res : String) : String × List String :=
 def oracleStep (s : OSt) (ts : List String) (line : String) : OSt × Option String :=
   let res := (resPart line).getD ""
   match ts with
-  | ["load", name, _, _, _, _, _, _, _, _, maxEj, active] => match parseF? maxEj, active.toNat? with
+  -- the rule in force is the one of the latest load (either path) that reported success
+  | [op, name, _, _, _, _, _, _, _, _, maxEj, active] =>
+    if op ≠ "load" ∧ op ≠ "loadres" then (s, some "bad-op") else
+    match parseF? maxEj, active.toNat? with
     | some (m, E), some act =>
       if res ≠ "ok" then (s, some "?") else
       let st := ((oGet s name).map (·.status)).getD []
-      (oSet s name { m := m, E := E, active := act ≠ 0, status := st }, some "?")
-    | _, _ => (s, some "bad-op")
+      let kn := ((oGet s name).map (·.known)).getD []
+      (oSet s name { m := m, E := E, active := act ≠ 0, status := st, known := kn }, some "?")
+    | _, _ => (s, some (if op = "loadres" ∧ res = "err" then "?" else "bad-op"))
+  | ["clearres", name] => match oGet s name with
+    -- no rule in force: nothing may be filtered (cap 0); the recycler map survives
+    | some r => (oSet s name { r with m := 0, E := 0, active := false, loaded := false, known := [] }, some "?")
+    | none => (s, some "?")
   | ["clock", t] => if t.toNat?.isSome then (s, none) else (s, some "bad-op")
   | ["call", name, addr, oc, _] => match oGet s name with
     | some r =>
+      if !r.loaded then (s, some "bad-op") else
       let (v, rej) := judgeCheck r res
       let st := if rej.isEmpty then r.status else stSchedule r.status rej
       let st := if oc == "ok" then stRecover st addr else st
-      (oSet s name { r with status := st }, some v)
+      (oSet s name { r with status := st, known := addrsOf res "end" r.known }, some v)
     | none => (s, some "bad-op")
   | ["probe", name] => match oGet s name with
     | some r =>
       let (v, rej) := judgeCheck r res
-      (oSet s name { r with status := if rej.isEmpty then r.status else stSchedule r.status rej }, some v)
+      (oSet s name { r with status := if rej.isEmpty then r.status else stSchedule r.status rej,
+                            known := addrsOf res "end" r.known }, some v)
     | none => (s, some "bad-op")
   | ["retry", name, addr, _] => match oGet s name with
-    | some r => (oSet s name { r with status := stRecover r.status addr }, some "?")
+    | some r =>
+      if !r.loaded then (s, some "bad-op") else
+      (oSet s name { r with status := stRecover r.status addr, known := addrsOf res "nodes" r.known }, some "?")
     | none => (s, some "bad-op")
   | ["recycle", name, addr] => match oGet s name with
     | some r =>
-      -- a node marked recovered (successful completion since it was scheduled) must survive the timer
-      let safe := r.status.any fun p => p.1 == addr && p.2
-      let s' := oSet s name { r with status := (stRecycle r.status addr).1 }
+      -- a node marked recovered (successful completion since it was scheduled) must survive the timer;
+      -- judged only for a node that was known just before (a `clearres` drops every node by itself)
+      let safe := (r.status.any fun p => p.1 == addr && p.2) && r.known.contains addr
+      let after := addrsOf res "nodes" r.known
+      let s' := oSet s name { r with status := (stRecycle r.status addr).1, known := after }
       match (field res "nodes").bind parseList with
-      | some ns =>
-        let present := ns.any fun x => (x.splitOn ":").head? == some addr
-        if safe then (s', some (if present then "ok" else "bad recycled-after-success")) else (s', some "?")
+      | some _ =>
+        if safe then (s', some (if after.contains addr then "ok" else "bad recycled-after-success")) else (s', some "?")
       | none => (s', some "bad unparsable")
     | none => (s, some "bad-op")
   | ["cap", n, p] => match n.toNat?, parseF? p, res.toNat? with
